@@ -753,6 +753,10 @@ func constResults(fn *ssa.Function, idx int, val map[string]int64, depth int) (v
 				if !paramTokRe.MatchString(k) {
 					hval[k] = v
 				}
+				// "@helper:atom": an atom in that helper's own vocabulary
+				if pre := "@" + h.Name() + ":"; strings.HasPrefix(k, pre) {
+					hval[k[len(pre):]] = v
+				}
 			}
 			for i, a := range call.Call.Args {
 				pi := fmt.Sprintf("p%d", i)
